@@ -108,12 +108,35 @@ VecCheck(ln) ==
       chk  |-> Cardinality(todo), skip |-> Cardinality(all) - Cardinality(todo),
       nt   |-> NonTrivialVec(ln)]
 
+(* ------------------- operands of two different scalar types ------------ *)
+XOK(op, ln, A, B, S, v) ==
+  LET tl == ln.tl  tr == ln.tr  ct == CommonType(ln.tl, ln.tr) IN
+  CASE op \in {"add", "addeq"} -> Vc(tl, v, VAdd(A, B))
+    [] op \in {"sub", "subeq"} -> Vc(tl, v, VSub(A, B))
+    [] op \in {"mul", "muleq"} -> Vc(tl, v, VMul(A, B))
+    [] op \in {"div", "diveq"} -> Vc(tl, v, VDiv(A, B))
+    [] op \in {"smul", "smull", "smuleq"} -> Vc(tl, v, VScale(A, S))
+    [] op \in {"sdiv", "sdiveq"} -> Vc(tl, v, VSDiv(A, S))
+    [] op \in {"dot", "dotm"} -> Sc(ct, v, Dot(A, B))
+    [] op \in {"cross", "crossm"} -> Vc(ct, v, Cross(A, B))
+    [] op \in {"cvt", "asg"} -> Vc(tr, v, A)
+XCheck(ln) ==
+  LET A == VOver(ln.a, ln.dl)
+      B == VOver(ln.b, ln.dr)
+      S == B[1]
+      want == UNION {XOpsOf(g, ln.d) : g \in Range(ln.g)}
+      okdom == DOMAIN ln.r = {"x"} /\ DOMAIN ln.r.x = want /\ ln.tl # ln.tr /\ {ln.tl, ln.tr} \subseteq Types
+  IN [bad  |-> IF ~okdom THEN {<<"MACHINERY", "ops-x">>}
+               ELSE {<<ln.tl \o ln.tr, op>> : op \in {o \in want : ~XOK(o, ln, A, B, S, ln.r.x[o])}},
+      chk  |-> Cardinality(want), skip |-> 0,
+      nt   |-> Distinct2(ln.a) /\ Distinct2(ln.b)]
+
 (* ------------------------------ geometry ------------------------------- *)
 IncCell(cells, hf) == {c \in 1 .. Len(cells) : \E k \in 1 .. Len(cells[c]) : cells[c][k] = hf}
 SmallDir(n) == \A i \in 1 .. Len(n) : Abs(n[i]) <= 40
 
-GeomCheck(ln) ==
-  LET ty == ln.vt  pos == ln.pos  edges == ln.edges  faces == ln.faces  cells == ln.cells  q == ln.q
+GeomCheckQ(ln, q, nov, tag) ==
+  LET ty == ln.vt  pos == ln.pos  edges == ln.edges  faces == ln.faces  cells == ln.cells
       nV == Len(pos)  nE == Len(edges)  nF == Len(faces)  nC == Len(cells)
       HFN(hf) == HFNormalInt(edges, faces, pos, hf)
       Verts(hf) == HFVerts(edges, faces, hf)
@@ -142,7 +165,8 @@ GeomCheck(ln) ==
       rAhf == {LET n0 == HFN(2 * (hf \div 2))  n == IF hf % 2 = 0 THEN n0 ELSE VNeg(n0)  ok == ~IsZeroVec(n) /\ SmallDir(IntsOf(n)) IN
                <<"NormalAttrib[hf]", hf, ok, ok => NormalizedMatches(q.na_hf[hf + 1], n, ty)>> : hf \in 0 .. (2 * nF - 1)}
       \* vertex normal: normalised sum of the (logged) normals of the incident boundary halffaces
-      rAv  == {LET bhf == {hf \in 0 .. (2 * nF - 1) : v \in Range(Verts(hf)) /\ IncCell(cells, hf) = {}}
+      rAv  == IF nov THEN {} ELSE
+              {LET bhf == {hf \in 0 .. (2 * nF - 1) : v \in Range(Verts(hf)) /\ IncCell(cells, hf) = {}}
                    inr == \A hf \in bhf : \A i \in 1 .. 3 : ~FOutOfRange(q.na_hf[hf + 1][i])
                    bs  == SetToSortedSeq(bhf)
                    Sm  == [i \in 1 .. 3 |-> SumInts([k \in 1 .. Len(bs) |-> FHi(q.na_hf[bs[k] + 1][i])])]
@@ -151,9 +175,18 @@ GeomCheck(ln) ==
       all == IF lens THEN rV \cup rHEv \cup rEv \cup rHEl \cup rEl \cup rEb \cup rFb \cup rCb \cup rN \cup rOpp \cup rAf \cup rAhf \cup rAv ELSE {}
       todo == {x \in all : x[3]}
   IN [bad  |-> (IF lens THEN {} ELSE {<<"MACHINERY", "geometry-lengths">>})
-               \cup {<<x[1], ToString(x[2])>> : x \in {y \in todo : ~y[4]}},
+               \cup {<<tag \o x[1], ToString(x[2])>> : x \in {y \in todo : ~y[4]}},
       chk  |-> Cardinality(todo), skip |-> Cardinality(all) - Cardinality(todo),
       nt   |-> TRUE]
+
+(* kind H: the mesh after [update; moves / added face; update] on one NormalAttrib object: the attribute   *)
+(* (q) and a fresh attribute object updated on the same final mesh (q2) must both show the normals of the   *)
+(* CURRENT positions.  nov: the last update was update_face_normals only - vertex normals are not judged.   *)
+GeomCheck(ln) ==
+  IF ln.k = "H"
+  THEN LET r1 == GeomCheckQ(ln, ln.q, ln.nov, "history:")  r2 == GeomCheckQ(ln, ln.q2, FALSE, "fresh:") IN
+       [bad |-> r1.bad \cup r2.bad, chk |-> r1.chk + r2.chk, skip |-> r1.skip + r2.skip, nt |-> TRUE]
+  ELSE GeomCheckQ(ln, ln.q, FALSE, "")
 
 (* ------------------------------ the trace ------------------------------ *)
 TInit == l = 1 /\ nbad = 0 /\ nchk = 0 /\ nskip = 0 /\ ncase = 0 /\ nnt = 0
@@ -165,7 +198,7 @@ TNext ==
   /\ l' = l + 1
   /\ LET ln == Tr[l] IN
      IF ln.e = "case"
-     THEN LET r == IF ln.k = "G" THEN GeomCheck(ln) ELSE VecCheck(ln) IN
+     THEN LET r == IF ln.k \in {"G", "H"} THEN GeomCheck(ln) ELSE IF ln.k = "X" THEN XCheck(ln) ELSE VecCheck(ln) IN
           /\ Report(l, ln.n, r.bad)
           /\ nbad' = nbad + Cardinality(r.bad)
           /\ nchk' = nchk + r.chk
